@@ -126,7 +126,7 @@ def _cases(draw, tier):
         for ins in c09._flatten(base['outline']):
             pass
         # no awaitables: ToContext values stay empty
-        case = {'outline': base['outline'], 'behaviour': {k: val for k, val in base['behaviour'].items() if k != 'tocontext'}}
+        case = {'outline': base['outline'], 'behaviour': {k: val for k, val in base['behaviour'].items() if k not in ('tocontext', 'module_steps')}}
     else:
         case = {'program': draw(_loop_program())}
         if draw(st.integers(0, 3)) == 0:
